@@ -158,26 +158,44 @@ class Ctx:
         self.note("leanchecker accepted", module)
 
     # ---------------------------------------------------------------- running cases
-    def run_impl(self, cmd, lines, timeout=1200):
+    def run_impl(self, cmd, lines, timeout=1200, isolate=False):
+        """One harness process over all lines. With isolate=True a crash (or time-out, or memory blow-up) of the process is
+        attributed to single cases: the lines are re-run in halves and finally alone, and a case that kills the
+        process yields the line `CRASH <reason>` instead of aborting the check."""
         data = ("\n".join(lines) + "\n").encode()
-        env = dict(os.environ, GOMEMLIMIT="6GiB")
-        p = subprocess.run([HARNESS, cmd], input=data, stdout=subprocess.PIPE, stderr=subprocess.PIPE, timeout=timeout, env=env)
-        out = p.stdout.decode("utf-8", "replace").split("\n")
+        env = dict(os.environ, GOMEMLIMIT="3GiB")
+        def limits():
+            import resource
+            resource.setrlimit(resource.RLIMIT_AS, (12 << 30, 12 << 30))
+        try:
+            p = subprocess.run([HARNESS, cmd], input=data, stdout=subprocess.PIPE, stderr=subprocess.PIPE, timeout=timeout, env=env,
+                               preexec_fn=limits if isolate else None)
+            rc, so, se = p.returncode, p.stdout, p.stderr
+        except subprocess.TimeoutExpired as e:
+            rc, so, se = "timeout", e.stdout or b"", e.stderr or b""
+        out = so.decode("utf-8", "replace").split("\n")
         if out and out[-1] == "":
             out.pop()
-        if p.returncode != 0 or len(out) != len(lines):
-            raise Broken("harness %s crashed or lost lines (rc=%s, %d of %d lines)" % (cmd, p.returncode, len(out), len(lines)),
-                         p.stderr.decode("utf-8", "replace")[-2000:])
+        if rc != 0 or len(out) != len(lines):
+            if not isolate:
+                raise Broken("harness %s crashed or lost lines (rc=%s, %d of %d lines)" % (cmd, rc, len(out), len(lines)),
+                             se.decode("utf-8", "replace")[-2000:])
+            if len(lines) == 1:
+                why = "timeout" if rc == "timeout" else ("rc=%s " % rc) + se.decode("utf-8", "replace").strip().split("\n")[0][:200]
+                return ["CRASH " + hx(why)]
+            mid = len(lines) // 2
+            t2 = 20 if len(lines) <= 4 else max(30, min(timeout // 2, 20 + len(lines) // 4))
+            return self.run_impl(cmd, lines[:mid], t2, True) + self.run_impl(cmd, lines[mid:], t2, True)
         return out
 
-    def run_impl_par(self, cmd, lines, nproc=14, timeout=3000):
+    def run_impl_par(self, cmd, lines, nproc=14, timeout=3000, isolate=False):
         """Same as run_impl, the lines dealt round-robin to nproc harness processes."""
         from concurrent.futures import ThreadPoolExecutor
         if len(lines) < 2 * nproc:
-            return self.run_impl(cmd, lines, timeout)
+            return self.run_impl(cmd, lines, timeout, isolate)
         chunks = [lines[i::nproc] for i in range(nproc)]
         with ThreadPoolExecutor(nproc) as ex:
-            outs = list(ex.map(lambda c: self.run_impl(cmd, c, timeout), chunks))
+            outs = list(ex.map(lambda c: self.run_impl(cmd, c, timeout, isolate), chunks))
         res = [None] * len(lines)
         for i, o in enumerate(outs):
             res[i::nproc] = o
@@ -193,6 +211,18 @@ class Ctx:
             raise Broken("model driver %s crashed or lost lines (rc=%s, %d of %d lines)" % (cmd, p.returncode, len(out), len(lines)),
                          p.stderr.decode("utf-8", "replace")[-2000:])
         return out
+
+    def run_model_par(self, cmd, lines, nproc=14, timeout=3000):
+        from concurrent.futures import ThreadPoolExecutor
+        if len(lines) < 2 * nproc:
+            return self.run_model(cmd, lines, timeout)
+        chunks = [lines[i::nproc] for i in range(nproc)]
+        with ThreadPoolExecutor(nproc) as ex:
+            outs = list(ex.map(lambda c: self.run_model(cmd, c, timeout), chunks))
+        res = [None] * len(lines)
+        for i, o in enumerate(outs):
+            res[i::nproc] = o
+        return res
 
     def witness_hits(self):
         """KNOWN-FINDING lines: every recorded, unrepaired finding of this property whose witness input still
